@@ -59,61 +59,75 @@ def run_rules(ctx, F, A):
     since = len(ip.log)
     old_sum = ip.summarizable
     ip.summarizable = None
-    from ..rules.decoder import local_by_name
-    len_locals = local_by_name(tlf_parse, "len")
+    # Specification-side ghost accumulator, independent of how the parser keeps its own state: every innermost parser call
+    # (a crate function slice -> Result<(rest, _), _> that itself calls no such function) that consumes exactly one byte b
+    # contributes G' = 16 * G + (b & 15); CNT counts these bytes.  Both live in the abstract memory, so loop joins relate
+    # them to the parser's own variables.
+    from .grammar import is_parser_sig, is_parser_fn
+    from ..vra.stdsum import slice_elem
+    G_ACC, G_CNT = ("G", "c12-acc"), ("G", "c12-cnt")
 
-    def cur_len(frame, st):
-        for l in len_locals:
-            v = st.mem.get(("L", frame.fid, l))
-            if isinstance(v, VInt):
-                return v.lin
-        return None
+    def leaf_candidate(callee):
+        return is_parser_fn(F, callee) and is_parser_sig(F, callee) and (callee.get("method") != "check_tlf")
+
+    def on_call(ip_, frame, bb, t, st, callee, args_):
+        if G_ACC not in st.mem or not leaf_candidate(callee):
+            return
+        stack = st.ghost.get("c12-stack", ())
+        if stack:
+            stack = stack[:-1] + (True,)
+        st.ghost["c12-stack"] = stack + (False,)
 
     def on_res(ip_, frame, bb, t, callee, args_, outs_):
-        if frame.body is not tlf_parse:
-            return
-        r = callee.get("resolved") or callee
-        if r["def"] != "parser::tlf::tlf_next_byte":
+        if not leaf_candidate(callee):
             return
         for (s2, rv) in outs_:
-            if isinstance(rv, VEnum) and s2.const_of(rv.disc) == 0:
-                s2.ghost["c12-before"] = cur_len(frame, s2)
-                s2.ghost["c12-nib"] = rv.pay[0][0].elems[1].elems[1].lin
-
-    def on_asg(ip_, frame, bb, stmt, st, val):
-        if frame.body is not tlf_parse or stmt["place"]["proj"] or stmt["place"]["local"] not in len_locals:
-            return
-        bf, nb = st.ghost.get("c12-before"), st.ghost.get("c12-nib")
-        if bf is None or nb is None or not isinstance(val, VInt):
-            return
-        inter = st.prove_eq0(val.lin - bf.scale(16))
-        final = st.prove_eq0(val.lin - bf.scale(16) - nb)
-        ip_.observe({"kind": "c12-acc", "inter": inter, "final": final, "line": stmt["span"]["line"], "val": repr(val.lin)})
+            if G_ACC not in s2.mem:
+                continue
+            stack = s2.ghost.get("c12-stack")
+            if not stack:
+                s2.ghost["c12-acc-lost"] = 1
+                continue
+            nested = stack[-1]
+            s2.ghost["c12-stack"] = stack[:-1]
+            if nested or not (isinstance(rv, VEnum) and s2.const_of(rv.disc) == 0):
+                continue
+            okp_ = ok_payload(ip_, s2, rv)
+            src = [x for x in args_ if isinstance(x, VSlice)]
+            if okp_ is None or not src or not isinstance(okp_[0], VSlice):
+                s2.ghost["c12-acc-lost"] = 1
+                continue
+            rest_, src = okp_[0], src[0]
+            if not (rest_.root == src.root and s2.prove_eq0(rest_.start - src.start - 1)):
+                s2.ghost["c12-acc-lost"] = 1
+                continue
+            byte = slice_elem(ip_, s2, src, Lin.const(0))
+            if not isinstance(byte, VInt):
+                s2.ghost["c12-acc-lost"] = 1
+                continue
+            nib = ip_.fresh_int(s2, 8, False, "and", ("and", byte.lin, 15), 0, 15).lin
+            acc, cnt = s2.mem[G_ACC].lin, s2.mem[G_CNT].lin
+            s2.mem[G_ACC] = VInt(acc.scale(16) + nib, 128, False)
+            s2.mem[G_CNT] = VInt(cnt + 1, 64, False)
+    ip.on_call.append(on_call)
     ip.on_call_result.append(on_res)
-    ip.on_assign.append(on_asg)
     try:
         with Tracer(A, select=lambda key, callee: True):
             st = ip.new_state()
+            st.mem[G_ACC] = cint(0, 128, False)
+            st.mem[G_CNT] = cint(0, 64, False)
             args = ip.fresh_args(tlf_parse, {}, st)
             inp = args[0]
             outs = ip.run_root(tlf_parse, {}, args, st)
     finally:
+        ip.on_call.remove(on_call)
         ip.on_call_result.remove(on_res)
-        ip.on_assign.remove(on_asg)
     ip.summarizable = old_sum
-    acc = A.observations("c12-acc", since)
-    ctx.rule("R-C12-ACC", "each continuation byte updates the length to exactly 16 * previous + its low nibble")
-    ctx.count("R-C12-ACC", len(acc))
-    if not any(o["final"] for o in acc):
-        ctx.violation("R-C12-ACC", "missing", where_tlf, "no assignment `len = 16*len + nibble` found for continuation bytes")
-    for o in acc:
-        ok = o["inter"] or o["final"]
-        ctx.oblig(ok)
-        if not ok:
-            ctx.violation("R-C12-ACC", "value", (tlf_parse["span"]["file"], o["line"], tlf_parse["def"]),
-                          "the accumulated length is assigned %s, which is neither 16*previous nor 16*previous + nibble of the continuation byte" % o["val"])
+    ctx.rule("R-C12-ACC", "on every successful path the returned length equals the base-16 number formed by the low nibbles of all consumed "
+                          "bytes (ghost accumulator G' = 16*G + (byte & 15) per consumed byte), minus the consumed byte count unless the type is a list")
     errs = set()
     n_ok = 0
+    n_unattributed = 0
     for (s2, rv) in outs:
         okp = ok_payload(ip, s2, rv)
         if okp is None:
@@ -128,21 +142,42 @@ def run_rules(ctx, F, A):
         rest, tlf = okp
         tyv = s2.const_of(tlf.elems[tfn.index("ty")].disc)
         ln = tlf.elems[tfn.index("len")].lin
-        tr = trace_of(s2, tlf_parse["def"])
-        subs = [e for e in tr if e["key"].endswith("checked_sub")]
         consumed = rest.start - inp.start
-        ctx.count("R-C12-SUB")
-        if tyv == v_list:
-            ok = not subs
-            msg = "list lengths must not have the field size subtracted"
+        acc, cnt = s2.mem.get(G_ACC), s2.mem.get(G_CNT)
+        lost = s2.ghost.get("c12-acc-lost") or acc is None or cnt is None or rest.root != inp.root or not s2.prove_eq0(cnt.lin - consumed)
+        ctx.count("R-C12-ACC")
+        if lost:
+            # the consumed bytes could not be attributed to single-byte parser calls: fall back to the closed form on exact paths
+            k = s2.const_of(consumed)
+            spec = None
+            if k is not None and 1 <= k <= 16 and rest.root == inp.root:
+                spec = Lin.const(0)
+                for i in range(k):
+                    bv = slice_elem(ip, s2, inp, Lin.const(i))
+                    if not isinstance(bv, VInt):
+                        spec = None
+                        break
+                    spec = spec.scale(16) + ip.fresh_int(s2, 8, False, "and", ("and", bv.lin, 15), 0, 15).lin
+            if spec is None:
+                n_unattributed += 1
+                continue
+            accl = spec
         else:
-            ok = len(subs) == 1 and isinstance(subs[0]["args"][1], VInt) and s2.prove_eq0(subs[0]["args"][1].lin - consumed) \
-                and s2.prove_eq0(ln - (subs[0]["args"][0].lin - subs[0]["args"][1].lin)) and rest.root == inp.root
-            msg = "for non-list types the returned length must be (accumulated length - number of TLF bytes consumed) via one checked subtraction " \
-                  "(consumed %s, subtrahend %s)" % (s2.describe(consumed), s2.describe(subs[0]["args"][1].lin) if subs else "none")
+            accl = acc.lin
+        if tyv == v_list:
+            ok = s2.prove_eq0(ln - accl)
+            msg = "for the list type the returned length must be the accumulated nibbles (returned %s, accumulated %s)" % (s2.describe(ln), s2.describe(accl))
+            rid = "R-C12-ACC"
+        else:
+            ok = s2.prove_eq0(ln + consumed - accl)
+            rid = "R-C12-SUB" if s2.prove_eq0(ln - accl) or not s2.prove_ge0(accl - ln - 1) else "R-C12-ACC"
+            msg = "for non-list types the returned length must be (accumulated nibbles - number of TLF bytes consumed) " \
+                  "(returned %s, accumulated %s, consumed %s)" % (s2.describe(ln), s2.describe(accl), s2.describe(consumed))
+        ctx.count("R-C12-SUB")
         ctx.oblig(ok)
         if not ok:
-            ctx.violation("R-C12-SUB", "ty=%s" % tyv, where_tlf, msg)
+            ctx.violation(rid, "ty=%s" % tyv, where_tlf, msg)
+    ctx.cov["tlf_paths_without_byte_attribution"] = n_unattributed
     if n_ok < 2:
         ctx.violation("BELOW-FLOOR", "R-C12-SUB", where_tlf, "fewer than 2 success paths of the TLF parser")
     # lossy operations anywhere in the primitive parsers
